@@ -18,6 +18,7 @@ SWITCH = P + "simulator/network/hardware/nodes/network/switch.py"
 HOSTNODE = P + "simulator/network/hardware/nodes/host/host_node.py"
 GAME = P + "game/game.py"
 ENV = P + "session/environment.py"
+APPLICATION_ = P + "simulator/system/applications/application.py"
 IFACE = P + "game/agent/interface.py"
 FS = P + "simulator/file_system/file_system.py"
 FOLDER = P + "simulator/file_system/folder.py"
@@ -238,6 +239,45 @@ v("C11", "benign-is-operator", "benign", BASE,
             return self.node.operating_state == NodeOperatingState.OFF''',
   '''            """Return whether the node is on or off."""
             return self.node.operating_state is NodeOperatingState.OFF''', None, "== replaced by is")
+
+v("C11", "dry-run-remembers-last-verdict", "break", CORE,
+  '''        # a request refused at this level never reaches the sub-tree or the handler (mirrors __call__)
+        if not request_type.validator(request_options, context):
+            return False''',
+  '''        # a request refused at this level never reaches the sub-tree or the handler (mirrors __call__)
+        if context.setdefault(request_key, request_type.validator(request_options, context)) is False:
+            return False''', "R11.5", "verdict memoised per key in the shared context")
+v("C11", "pre-timestep-finishes-boot", "break", BASE,
+  '''    def pre_timestep(self, timestep: int) -> None:
+        """Apply pre-timestep logic."""
+        super().pre_timestep(timestep)
+        for network_interface in self.network_interfaces.values():
+            network_interface.pre_timestep(timestep=timestep)''',
+  '''    def pre_timestep(self, timestep: int) -> None:
+        """Apply pre-timestep logic."""
+        super().pre_timestep(timestep)
+        if self.operating_state == NodeOperatingState.BOOTING and self.start_up_countdown <= 0:
+            self.operating_state = NodeOperatingState.ON
+        for network_interface in self.network_interfaces.values():
+            network_interface.pre_timestep(timestep=timestep)''', "R11.5", "node state changes between mask and action")
+v("C11", "pre-timestep-closes-idle-application", "break", APPLICATION_,
+  '''        super().pre_timestep(timestep)
+        self.num_executions = 0''',
+  '''        super().pre_timestep(timestep)
+        if self.num_executions == 0:
+            self.close()
+        self.num_executions = 0''', "R11.5", "life-cycle call in pre_timestep")
+v("C11", "env-advances-before-acting", "break", ENV,
+  '''        self.game.apply_agent_actions()
+        self.game.advance_timestep()''',
+  '''        self.game.advance_timestep()
+        self.game.apply_agent_actions()''', "R11.5", "time advances between mask and action")
+v("C11", "benign-pre-timestep-extra-counter", "benign", APPLICATION_,
+  '''        super().pre_timestep(timestep)
+        self.num_executions = 0''',
+  '''        super().pre_timestep(timestep)
+        self.num_executions = 0
+        self._steps_seen = getattr(self, "_steps_seen", 0) + 1''', None, "another per-step counter")
 
 # ------------------------------------------------------------------------------------------------ C12
 v("C12", "zero-duration-no-disable", "break", BASE,
